@@ -4,7 +4,8 @@
 set -eu
 . /verif/lib/env.sh
 ID="$1"
-exec 9>"$WORK/build.lock"; flock 9
+# seedtest/muttest hold the lock around "modify /repo - build - run - revert"
+if [ -z "${VERIF_BUILD_LOCKED:-}" ]; then exec 9>"$WORK/build.lock"; flock 9; fi
 case "$ID" in
   C18) KIND=test18;;
   C19) KIND=inst; CFG=c19; MAINPKG=vhc19; RACE=1; TARGETS="internal/core/runtime:index.go,imports.go cue:decode.go internal/core/convert:go.go internal/core/adt:context.go cue/token:position.go";;
